@@ -140,6 +140,57 @@ def describe_inst(o):
 
 
 # --------------------------------------------------------------- cases ----
+def _used_before(f, v):
+    """What a program may have done with a frame object before an address is written into it: none of these
+    read-only uses (each may be refused) changes what the frame is or what can be written into it."""
+    for k, use in enumerate((lambda: hash(f), lambda: {f: 1}, lambda: f in {1, 2}, lambda: f in [f], lambda: repr(f),
+                             lambda: f.pack, lambda: f == f, lambda: bool(f), lambda: len(f))):
+        if (v >> k) & 1:
+            try:
+                use()
+            except Exception:  # noqa - e.g. frames are not hashable
+                pass
+
+
+def case_nokind(case):
+    """case: {"op": "nokind", "cls": name, "bits":, "v":, "plain":}: an address object of one of the public kind-less
+    classes (no frame is the right size for it) is refused by every frame with IncompatibleFrame, frame unmodified."""
+    address, frame, exc = _mods()
+    out = []
+    bits, v = case["bits"], case["v"]
+    where = "%s() into %d-bit %s %#x" % (case["cls"], bits, "Frame" if case["plain"] else "ForwardFrame", v)
+    try:
+        o = getattr(address, case["cls"])()
+    except Exception:  # noqa - not constructible without arguments: not a kind-less address
+        return out
+    f = (frame.Frame if case["plain"] else frame.ForwardFrame)(bits, v)
+    try:
+        o.add_to_frame(f)
+        out.append(("C04:wrong-size-accepted:no-kind", "%s: no exception" % where))
+    except exc.IncompatibleFrame:
+        pass
+    except Exception as e:  # noqa
+        out.append(("C04:wrong-size-exception:no-kind", "%s: raised %r, not IncompatibleFrame" % (where, e)))
+    if f.as_integer != v or len(f) != bits:
+        out.append(("C04:wrong-size-modified:no-kind", "%s: frame now %#x/%d" % (where, f.as_integer, len(f))))
+    return out
+
+
+def nokind_classes(address):
+    """Public address classes that can be constructed but are none of the concrete kinds the standard defines."""
+    names = []
+    concrete = {type(t[-1]) for t in gear_objects(address)} | {type(t[-1]) for t in device_objects(address)}
+    for n in sorted(vars(address)):
+        c = getattr(address, n)
+        if isinstance(c, type) and issubclass(c, address.Address) and not n.startswith("_") and c not in concrete:
+            try:
+                c()
+                names.append(n)
+            except Exception:  # noqa
+                pass
+    return names
+
+
 def case_write(case):
     """case: {"op": "write", "space": gear|device|instance, "idx": object index, "v": frame value}"""
     address, frame, exc = _mods()
@@ -169,6 +220,7 @@ def case_write(case):
             out.append(("C04:instance-partition", "%s: before the write instance_from_frame gave %r" % (where, describe_inst(pre_i))))
     except Exception as e:  # noqa
         return [("C04:read-raised:%s" % type(e).__name__, "%s: %r" % (where, e))]
+    _used_before(f, v)
     try:
         o.add_to_frame(f)
     except Exception as e:  # noqa
@@ -264,6 +316,7 @@ def case_wrongsize(case):
     f = frame.ForwardFrame(bits, v)
     where = "%s(%r) into %d-bit frame %#x" % (kind, num, bits, v)
     out = []
+    _used_before(f, v ^ idx)
     try:
         o.add_to_frame(f)
         out.append(("C04:wrong-size-accepted:" + space, "%s: no exception" % where))
@@ -555,6 +608,8 @@ def run_case(case):
         return case_equality(case)
     if op == "foreign":
         return case_foreign(case)
+    if op == "nokind":
+        return case_nokind(case)
     raise ValueError(op)
 
 
@@ -628,6 +683,18 @@ def _shard(arg):
                     for sig, msg in case_wrongsize(case):
                         res.violation(sig, case, msg)
         res.sample({"op": "wrongsize", "space": space, "idx": 3, "bits": 17, "v": 0x1FFFF})
+    elif kind == "nokind":
+        for name in nokind_classes(address):
+            for bits in range(1, 65):
+                full = (1 << bits) - 1
+                for v in sorted({0, full, full // 3, (0xA5A5A5A5A5A5A5A5 & full)}):
+                    for plain in (False, True):
+                        case = {"op": "nokind", "cls": name, "bits": bits, "v": v, "plain": plain}
+                        res.count()
+                        res.nontrivial()
+                        for sig, msg in case_nokind(case):
+                            res.violation(sig, case, msg)
+            res.label("kind-less-class:" + name, 1)
     elif kind == "eq":
         n = len(all_objects(address))
         for i in range(n):
@@ -677,6 +744,7 @@ def run(ctx):
     for space in ("gear", "device", "instance"):
         shards.append(("wrongsize", space))
     shards.append(("eq",))
+    shards.append(("nokind",))
     for ci in range(len(NUMBERED)):
         shards.append(("lifetime", ci, ctx.seed))
     ctx.pmap(_shard, shards)
